@@ -1,15 +1,15 @@
 SPECIFICATION Spec
 CONSTANTS
-  PlainNames <- MC_Names2
+  PlainNames <- MC_Names1
   HostileNames <- MC_NoHostile
   MaxOps = 3
   MaxIno = 10
   Cfg <- MC_Cfg_seal
-  AsFound <- MC_AF_none
-  Mode = "c18"
+  AsFound <- MC_AF_c18fd
+  Mode = "c18fd"
   InitS <- MC_S_plain
   ScenCfg <- MC_Scen_seal
   ScenTree <- MC_Tree_plain
 VIEW View
-INVARIANTS TreeOK HandlesOK Sealed SealRulesOK Report
+INVARIANTS TreeOK HandlesOK
 CHECK_DEADLOCK FALSE
